@@ -36,10 +36,10 @@ def install_lemmas(run):
     def add(name, **kw):
         C[f"lemmas_hooks.{name}"] = Contract(f"lemmas_hooks.{name}", **kw)
     add("api_ops", params="", modifies=BINDINGS, may_raise=["Exception"], ensures=[], trusted="abstraction of any sequence of API operations")
-    add("L1_arm_global", props=["no-frame"], params="f: stream?", returns="val", requires=["pickle.loads is stock_loads()"], may_raise=["Exception"], modifies=BINDINGS, ensures=[])
-    add("L1_arm_global_alias", props=["no-frame"], params="f: stream?", returns="val", requires=["pickle.loads is stock_loads()"], may_raise=["Exception"], modifies=BINDINGS, ensures=[])
-    add("L1_arm_context", props=["no-frame"], params="f: stream?", returns="val", requires=["pickle.loads is stock_loads()"], may_raise=["Exception"], modifies=BINDINGS, ensures=[])
-    add("L1_arm_ml", props=["no-frame"], params="f: stream?, d: bytes, a: val", returns="val", may_raise=["Exception"], modifies=BINDINGS, ensures=[])
+    add("L1_arm_global", props=["no-frame"], params="f: stream", returns="val", requires=["pickle.loads is stock_loads()"], may_raise=["Exception"], modifies=BINDINGS, ensures=[])
+    add("L1_arm_global_alias", props=["no-frame"], params="f: stream", returns="val", requires=["pickle.loads is stock_loads()"], may_raise=["Exception"], modifies=BINDINGS, ensures=[])
+    add("L1_arm_context", props=["no-frame"], params="f: stream", returns="val", requires=["pickle.loads is stock_loads()"], may_raise=["Exception"], modifies=BINDINGS, ensures=[])
+    add("L1_arm_ml", props=["no-frame"], params="f: stream, d: bytes, a: val", returns="val", may_raise=["Exception"], modifies=BINDINGS, ensures=[])
     add("L1_keep_run_hook", params="", modifies=BINDINGS, ensures=["protected(pickle.load)"])
     add("L1_keep_activate", params="a: val", modifies=BINDINGS, ensures=["protected(pickle.load)"])
     add("L1_keep_enter", params="", returns="context.FicklingContextManager", modifies=BINDINGS, ensures=["protected(pickle.load)"])
